@@ -445,13 +445,29 @@ type MtreeEntry struct {
 	SHA256      []byte
 }
 
+// mtreeEscape encodes a path for mtree(5): blanks, control characters,
+// backslash, '#' and non-ASCII bytes are written as \ooo octal escapes, the
+// same encoding bsdtar uses when it writes a .MTREE.
+func mtreeEscape(s string) string {
+	var b strings.Builder
+	for i := 0; i < len(s); i++ {
+		c := s[i]
+		if c <= ' ' || c >= 0x7f || c == '\\' || c == '#' {
+			fmt.Fprintf(&b, "\\%03o", c)
+			continue
+		}
+		b.WriteByte(c)
+	}
+	return b.String()
+}
+
 func (me *MtreeEntry) WriteTo(w io.Writer) (int64, error) {
 	switch me.Type {
 	case files.TypeDir, files.TypeImplicitDir:
 		n, err := fmt.Fprintf(
 			w,
 			"./%s time=%d.0 mode=%o type=dir\n",
-			me.Destination,
+			mtreeEscape(me.Destination),
 			me.Time,
 			me.Mode,
 		)
@@ -460,17 +476,17 @@ func (me *MtreeEntry) WriteTo(w io.Writer) (int64, error) {
 		n, err := fmt.Fprintf(
 			w,
 			"./%s time=%d.0 mode=%o type=link link=%s\n",
-			me.Destination,
+			mtreeEscape(me.Destination),
 			me.Time,
 			me.Mode,
-			me.LinkSource,
+			mtreeEscape(me.LinkSource),
 		)
 		return int64(n), err
 	default:
 		n, err := fmt.Fprintf(
 			w,
 			"./%s time=%d.0 mode=%o size=%d type=file md5digest=%x sha256digest=%x\n",
-			me.Destination,
+			mtreeEscape(me.Destination),
 			me.Time,
 			me.Mode,
 			me.Size,
